@@ -7,6 +7,7 @@ CONSTANTS
   MaxNodes = 3
   MaxDepth = 2
   MinDefectEdits = 0
+  MaxSecrets = 1
   HistLen = 0
   Pick <- PickAll
 INVARIANTS EmitCfg
